@@ -137,7 +137,7 @@ def eval_ocaml_metric(ck, name, cases):
     for k in range(0, len(cases), 40):
         chunks.append("let chunk%d = [\n " % (k // 40) + ";\n ".join(ml_mcase(c) for c in cases[k:k + 40]) + "]\n")
     txt = "".join(chunks) + "let cases = List.concat [" + "; ".join("chunk%d" % i for i in range(len(chunks))) + "]\n"
-    rc, out = ck.ocaml_eval(name, "ExtractLogql.v", "logqlplan", txt, "logqlm_driver.ml")
+    rc, out = ck.ocaml_eval(name, "ExtractLogqlMetric.v", "logqlplan", txt, "logqlm_driver.ml")
     if rc != 0:
         return None, None, out
     res, short = {}, {}
@@ -145,7 +145,7 @@ def eval_ocaml_metric(ck, name, cases):
         parts = ln.split()
         if len(parts) < 2:
             continue
-        short[int(parts[0])] = parts[1] == "1"
+        short[int(parts[0])] = (parts[1][0] == "1", parts[1][1] == "1")   # (analyze_m15, m15_representable) of the model
         res[int(parts[0])] = [None if p == "-" else bytes.fromhex(p) for p in parts[2:]]
     return res, short, out
 
@@ -161,7 +161,8 @@ def metric_case_coq(c):
 
 def compare_metric(ck, cases, name="logqlm", shard=4000):
     """cases: harness output lines of --mode metric. Returns (usable, mismatching, skipped histogram); every usable
-    case gets c["m15"] = the model's AnalyzeMetrics15sShortcut verdict."""
+    case gets c["m15"] = the model's AnalyzeMetrics15sShortcut verdict and c["m15_spec"] = the specification predicate
+    m15_representable (model/LogqlMetricSem.v)."""
     usable = [c for c in cases if c.get("script_ml") and c.get("err") in (None, "", "plan", "process", "panic")]
     skipped = {}
     for c in cases:
@@ -177,7 +178,7 @@ def compare_metric(ck, cases, name="logqlm", shard=4000):
         for c in part:
             got = res.get(c["id"])
             want = observed(c)
-            c["m15"] = short.get(c["id"])
+            c["m15"], c["m15_spec"] = short.get(c["id"], (None, None))
             if got != want:
                 d = ""
                 for a, b in zip(got or [None], want):
@@ -191,7 +192,7 @@ def compare_metric(ck, cases, name="logqlm", shard=4000):
 
 def run_logql_metric(ck, n_quick=1200, n_thorough=30000):
     """byte-exact SQL-text correspondence over generated LogQL metric queries; returns the harness cases"""
-    ok, out = ck.coq_make(["model/LogqlCases.vo"])
+    ok, out = ck.coq_make(["model/LogqlCases.vo", "model/LogqlMetricSem.vo"])
     if not ok:
         ck.obligation("LogQL planner model builds", False, out[-1500:])
         return []
